@@ -615,6 +615,7 @@ func (p *Prog) ProveLE(fi *FnInfo, at ssa.Instruction, facts []Atom, a, b *Term,
 func (p *Prog) ProveLERes(fi *FnInfo, at ssa.Instruction, facts []Atom, a, b *Term, strict bool, depth int) (bool, []residual) {
 	pr := &prover{p: p, fi: fi, at: at}
 	facts = p.evalConstCalls(fi, facts)
+	facts = libraryTermFacts(facts, a, b)
 	goal := newLin()
 	goal.add(pr.soundLin(b, facts), 1)
 	goal.add(pr.soundLin(a, facts), -1)
@@ -824,4 +825,45 @@ func (p *Prog) evalConstCalls(fi *FnInfo, facts []Atom) []Atom {
 		out = append(out, a)
 	}
 	return out
+}
+
+// libraryTermFacts: value contracts of standard-library search functions for every such call term
+// occurring in the goal or the facts (wherever it was evaluated — the contract is about the value):
+// slices.Index(S, …) and slices.IndexFunc(S, …) lie in [-1, len(S)).
+func libraryTermFacts(facts []Atom, goalTerms ...*Term) []Atom {
+	seen := map[string]bool{}
+	var extra []Atom
+	visit := func(t *Term) {
+		t.walk(func(x *Term) {
+			if x.K != TCall || len(x.Sub) < 1 || seen[x.s] {
+				return
+			}
+			nm := x.callName()
+			if i := strings.Index(nm, "["); i > 0 {
+				nm = nm[:i]
+			}
+			if nm != "slices.Index" && nm != "slices.IndexFunc" {
+				return
+			}
+			seen[x.s] = true
+			ln := mk(TLen, "", types.Typ[types.Int], nil, x.Sub[0])
+			ln.s = ln.render()
+			extra = append(extra, mkAtom("<", x, ln))
+			m1 := mk(TConst, "", types.Typ[types.Int], nil)
+			m1.C = constant.MakeInt64(-1)
+			m1.s = m1.render()
+			extra = append(extra, mkAtom("<=", m1, x))
+		})
+	}
+	for _, t := range goalTerms {
+		visit(t)
+	}
+	for _, f := range facts {
+		visit(f.L)
+		visit(f.R)
+	}
+	if len(extra) == 0 {
+		return facts
+	}
+	return append(append([]Atom{}, facts...), extra...)
 }
